@@ -21,6 +21,14 @@ tie:   scenarios (prefix table + control operations in real asyncio tasks + publ
        state is also run inside invalidate_further() and on never-initialised backends, and the trace records EVERYTHING
        a backend object is asked to do (commands, the deletions invalidate_further() turns reads into, init()): a
        disabled command must cause none of it (model: the default middleware stack, disable check outermost).
+       COMPOSITE commands - public methods that issue further backend commands behind the caller's back: set/incr with
+       tags= (-> set_add on `_tag:<tag>`, possibly a dedicated tags backend), delete_tags (-> set_pop, delete_many),
+       get_or_set, `async with cache.lock()` (-> set_lock, ping, unlock), @cache.invalidate (-> delete_match), decorators
+       with tags=, and the facade's on-remove callback (-> set_remove on the tags backend while a backend deletes keys) - are
+       run under every single disabled command / disabled prefix (incl. `_tag:` only) / full disable; EVERY command observed
+       on the recording backends must be enabled for the backend that receives it and routed by longest prefix
+       (issued_oracle), and the whole sequence is compared with the model (Model/DisableCompose.lean: composites as programs
+       over routed sub-commands; theorem composite_calls_enabled_and_routed).
 """
 from __future__ import annotations
 
@@ -52,9 +60,17 @@ TRUSTED = [
     "attribution of executions and backend commands to calls through a ContextVar inherited by the tasks cashews creates",
     "backend answers are symbolic in the model (the facade's answer is compared as a function of the recorded backend "
     "answers); positional answers of a backend's own get_many are C01's theorem get_many_positional",
+    "composite commands: hand-written model lean/CashewsVerif/Model/DisableCompose.lean (tags.py set/incr/delete_tags/_on_remove_callback, "
+    "commands.py get_or_set, backends/interface.py lock, validation.py invalidate as programs over the facade's public commands); the "
+    "environment of a composite (the backends' answers abstracted to None / default / falsy / truthy / popped members / raised, and "
+    "which keys a backend reports to its on-remove callbacks: recording override of Backend._call_on_remove_callbacks) is read off "
+    "the real run and handed to the model; which tags a removed key carries is asked from cashews' own registry "
+    "(cache.get_key_tags: C12's business); a `set_remove` received while a backend runs another command is attributed to the "
+    "facade's on-remove callback",
 ]
 
-PARTIAL = ("composite helpers (get_or_set, set/incr with tags, delete_tags, lock) and the decorators other than @cache are "
+PARTIAL = ("the composite commands (set/incr with tags, delete_tags, get_or_set, lock, @invalidate, on-remove callback) are modelled "
+           "and compared call by call; the decorators other than @cache (incl. those with tags=) are "
            "checked against the property oracle only, not against a Lean model (overlapping calls: @cache with and without "
            "`protected` are modelled, lock=True / early / soft / hit / ... are judged by the oracle while fully disabled or "
            "with every read command disabled); while the cache is NOT fully disabled `protected=True` joins overlapping "
@@ -69,7 +85,15 @@ PARTIAL = ("composite helpers (get_or_set, set/incr with tags, delete_tags, lock
            "the callbacks middleware is modelled as transparent (no callbacks registered in the scenarios); decorated functions "
            "inside invalidate_further() are judged by the oracle only; setup() while a transaction is open is not generated; "
            "pattern commands are routed by the pattern's own prefix (mirrored, "
-           "not judged); transaction semantics proper are C03/C04; more than 4 tasks / 6 registered prefixes are not sampled")
+           "not judged); transaction semantics proper are C03/C04; more than 4 tasks / 6 registered prefixes are not sampled; "
+           "composites: the on-remove callback asks the backend of exactly '_tag:' (lru_cache'd), which is the longest-prefix backend of "
+           "'_tag:<tag>' only while no registered prefix extends '_tag:' and '_tag:' is not registered again after its first use "
+           "(remove_callback_routed_by_longest_prefix states the hypothesis; such tables are not generated); what the callback does "
+           "inside a transaction is not exercised (tag registries and transactions are not combined); cache.lock is run with "
+           "wait=False and with wait=True/check_interval=1 against a lock that expires (the CacheBackendInteractionError branch of "
+           "lock() needs a failing backend: C19); delete_tags' loop is exercised up to its second round (100 / 101 members); "
+           "in the unchanged code the callback ignores a disabled SET_REMOVE / tags backend (finding D38, reported as KNOWN-FINDING; "
+           "the model describes the repaired callback, proposed_fixes/C17_remove_callback_ignores_disable.diff)")
 
 P_QUICK = ["", "a", "b", "ab", "a:", "ab:c", "ba", ":"]
 P_THORO = P_QUICK + ["aa", "ab:", "A", "é", "b:"]
@@ -111,6 +135,19 @@ RETRIEVE_DEL = {"get": "delete", "incr": "delete", "get_many": "delete_many", "g
 WRITING = {"set", "set_many", "delete", "delete_many", "delete_match", "clear", "set_raw", "incr", "expire", "incr_bits",
            "set_lock", "unlock", "slice_incr", "set_add", "set_remove", "set_pop"}
 D22F = "D22f:disabled-pattern-read-runs-inner-middlewares"
+# inside invalidate_further() an enabled retrieve command is replaced by one of these deletions
+REPLACERS = {"delete": ["get", "incr"], "delete_many": ["get_many"], "delete_match": ["get_match"]}
+# Finding of this check in the unchanged code (not yet repaired in /repo; proposed_fixes/C17_remove_callback_ignores_disable.diff):
+# the on-remove callback of cashews/wrapper/tags.py hands `set_remove` to the tags backend directly, without asking whether
+# SET_REMOVE (or the whole tags backend / prefix `_tag:`) is disabled for the caller.  The model describes the repaired code.
+# Listed here (not in the shared known_findings.json, which this branch may not edit): reported as KNOWN-FINDING, not as VIOLATION.
+D38 = "D38:remove-callback-ignores-disabled-tags-backend"
+LOCAL_KNOWN = {
+    D38: "cache.register_tag('t', 'k'); cache.disable(Command.SET_REMOVE) (or cache.disable(prefix='_tag:') of a dedicated tags "
+         "backend); await cache.delete('k') -> the tags backend still receives set_remove('_tag:t', 'k') from the facade's "
+         "on-remove callback",
+}
+KNOWN_SEEN: dict[str, int] = {}
 
 
 # ---- scenario -> driver lines -----------------------------------------------------------------------------
@@ -128,10 +165,21 @@ def valid(sc) -> bool:
         bids.add(r[1])
     inv: dict[int, int] = {}
     invopen: dict[int, int] = {}
+    tagged = bool(sc.get("tagreg") or sc.get("tagsets"))
     for op in sc["ops"]:
         k, ctx = op[0], op[1]
         if ctx not in live:
             return False
+        if k == "comp":
+            name = op[2]
+            if not (name in rc.COMPOSITES or (name.startswith("one:") and name[4:] in rc.INVOKE)):
+                return False
+            if (name in rc.COMPOSITES and name != "delete_tags" and len(op[3]) != 1) or (name == "delete_tags" and op[3]):
+                return False
+            if name.startswith("one:") and name[4:] in rc.KEYED and len(op[3]) != 1:
+                return False
+            if tagged and ctx in intx:
+                return False                   # what the remove callback does inside a transaction is C03/C12's business
         if k == "setup":
             if op[3] in bids or intx:
                 return False
@@ -256,9 +304,144 @@ def build_lines(sc, run):
             lines.append((f"cmd {ctx} {tx} {op[2]} " + " ".join(rc.enc(x) for x in ks), i, "cmd"))
         elif k == "dec" and op[2] == "cache" and not inv.get(ctx):
             lines.append((f"dec {ctx} {rc.enc(op[3])} {op[4]}", i, "dec"))
+        elif k == "comp":
+            lines.append((comp_line(ctx, 1 if ctx in intx else 0, op, st), i, "comp"))
     for fid in sorted(cfn):
         lines.append((f"cdrain {fid}", ("drain", fid), "cdrain"))
     return lines
+
+
+def enc_list(xs) -> str:
+    return "+".join(rc.enc(x) for x in xs) if xs else "~"
+
+
+def is_callback(e) -> bool:
+    """a `set_remove` a backend object receives WHILE a backend runs another command: the facade's on-remove callback
+    (backends never use set_remove themselves; the transaction wrapper hands its own set_remove on: parent = set_remove)"""
+    return e["cmd"] == "set_remove" and e["depth"] >= 1 and e.get("parent") != "set_remove"
+
+
+def ans_code(e) -> str:
+    """the backend's answer to a depth-0 call, as far as the control flow of the composites looks at it"""
+    if e["cmd"] == "init":
+        return "N"
+    if "exc" in e:
+        return "X"
+    if "items" in e:
+        return "T"
+    r = e.get("ret")
+    if r is None:
+        return "N"
+    if type(r) is object or r is rc.DFLT:
+        return "D"                               # the sentinel handed over as default=
+    if e["cmd"] == "set_pop":
+        return "K" + "+".join(rc.enc(k) for k in r)
+    if isinstance(r, (bool, int, float, str, bytes, list, tuple, set, frozenset, dict)) and not r:
+        return "F"
+    return "T"
+
+
+def comp_line(ctx, tx, op, st) -> str:
+    """the composite + what the backends did (their abstracted answers, the keys they removed with their tags)"""
+    name, ks, tags = op[2], op[3], (op[4] if len(op) > 4 else [])
+    calls = [e for e in st.get("log", []) if e["depth"] == 0 and e["kind"] != "body"]
+    ans = ",".join(ans_code(e) for e in calls) or "~"
+    cbs = []
+    for j, e in enumerate(calls):
+        # one entry per invocation of the on-remove callbacks: the tags of its keys, grouped in order (`_group_by_tags`)
+        invs = [list(dict.fromkeys(t for k in inv for t in st["keytags"].get(k, []))) for inv in e.get("removed", [])]
+        invs = [t for t in invs if t]
+        if invs:
+            cbs.append(f"{j}:" + "/".join(enc_list(t) for t in invs))
+    if name == "set_many" or name == "one:set_many":
+        ks = list(dict.fromkeys(ks))
+    return f"comp {ctx} {tx} {rc.COMP_MODEL.get(name, name)} {enc_list(ks)} {enc_list(tags)} {ans} {';'.join(cbs) or '~'}"
+
+
+def comp_impl(st):
+    """(outcome, depth-0 sequence with body markers, callback calls) of a composite on the real code"""
+    out = {"NC": "NC", "Locked": "locked", "HANG": "HANG"}.get(st.get("exc"), "raised") if "exc" in st else "ret"
+    seq = ["B" if e["kind"] == "body" else rc.fmt_call(e) for e in st.get("log", []) if e["depth"] == 0]
+    cbs = sorted(rc.fmt_call(e) for e in st.get("log", []) if e["kind"] != "body" and is_callback(e))
+    return out, seq, cbs
+
+
+def issued_oracle(i, op, st, regs):
+    """THE property on everything the backend objects were asked to do during one operation: every command the facade
+    issued (depth 0) must be enabled for the backend that received it and routed by the longest registered prefix of each
+    of its keys; the same for what the facade's on-remove callback issued; a fully disabled backend is not touched at any depth"""
+    bad = []
+    registered = set({r[0]: r[1] for r in regs}.values())
+    disall = {int(b): set(v) for b, v in st["disall"].items()}
+    inv = bool(st.get("inv"))
+    fulloff = set(st.get("fulloff", []))
+    what = op[2]
+    for e in st.get("log", []):
+        if e["kind"] == "body":
+            continue
+        b = e["b"]
+        off = disall.get(b, set())
+        if is_callback(e):
+            if "set_remove" in off:
+                bad.append((i, D38, f"{op}: {rc.fmt_call(e)} issued by the facade's on-remove callback although backend {b} "
+                                    f"reports set_remove disabled" + (" (fully disabled)" if b in fulloff else "")))
+            for key in e["keys"]:
+                if longest(regs, key) != b:
+                    bad.append((i, "routing-remove-callback", f"{op}: the on-remove callback issued {rc.fmt_call(e)} but the longest "
+                                                              f"registered prefix of {key!r} belongs to backend {longest(regs, key)}"))
+            continue
+        if e["depth"] == 0:
+            cmd = e["cmd"]
+            if cmd != "init":
+                enabled = cmd not in off
+                if not enabled and inv and cmd in REPLACERS:
+                    enabled = any(src not in off for src in REPLACERS[cmd])     # the deletion an enabled read is replaced by
+                if not enabled:
+                    bad.append((i, f"disabled-{cmd}-issued", f"{op}: {rc.fmt_call(e)} issued although backend {b} reports {cmd} disabled"
+                                                             + (" (inside invalidate_further())" if inv else "")))
+            for key in e["keys"]:
+                if longest(regs, key) != b:
+                    bad.append((i, f"routing-{cmd}", f"{op}: {rc.fmt_call(e)} but the longest registered prefix of {key!r} belongs to "
+                                                     f"backend {longest(regs, key)} (registrations so far: {regs})"))
+            if not e["keys"] and b not in registered:
+                bad.append((i, f"routing-{cmd}", f"{op}: {rc.fmt_call(e)} to an unregistered backend"))
+        if e["kind"] == "raw" and b in fulloff:
+            bad.append((i, f"disabled-{e['cmd']}-issued", f"{op}: {rc.fmt_call(e)} reached a fully disabled backend (depth {e['depth']}) during {what}"))
+    return bad
+
+
+def comp_spec(i, op, st, regs):
+    """a composite command on the implementation's own observations"""
+    name, ks = op[2], op[3]
+    bad = issued_oracle(i, op, st, regs)
+    log = [e for e in st.get("log", []) if e["kind"] != "body"]
+    calls0 = [e for e in log if e["depth"] == 0]
+    if st.get("exc") == "HANG":
+        bad.append((i, f"disabled-{name}-hangs" if any(st["disall"].values()) else f"{name}-hangs", f"{op}: never finished"))
+    elif st.get("exc") == "NC":
+        # NotConfiguredError is a matter of routing alone: some key / tag key / "LOCK" the composite may use has no backend
+        cand = list(ks) + [rc.TAG_PREFIX + t for t in (op[4] if len(op) > 4 else [])] + [rc.TAG_PREFIX, "LOCK"] + \
+            [k for e in calls0 if e["cmd"] == "set_pop" and "ret" in e for k in (e["ret"] or [])]
+        if all(longest(regs, k) is not None for k in cand):
+            bad.append((i, f"disabled-{name}-raises" if any(st["disall"].values()) else f"{name}-raises",
+                        f"{op}: raised NotConfiguredError although every key it uses has a registered prefix"))
+    elif st.get("exc") == "Locked":
+        held = [e for e in calls0 if e["cmd"] == "set_lock" and "ret" in e and e["ret"] is not None and not e["ret"]]
+        if not held or name != "lock":
+            bad.append((i, f"disabled-{name}-raises", f"{op}: raised LockedError although no set_lock was refused by a backend"))
+    elif "exc" in st:
+        if not any(e.get("exc") == st["exc"] for e in log):
+            bad.append((i, f"disabled-{name}-raises" if any(st["disall"].values()) else f"{name}-raises",
+                        f"{op}: raised {st['exc']} although no backend command raised it (disabled: {st['disall']})"))
+    else:
+        if name in ("lock", "lock_wait", "invalidate") and st.get("bodies") != 1:
+            bad.append((i, f"{name}-not-executed", f"{op}: the caller's block ran {st.get('bodies')} times"))
+        if st.get("full") and name == "get_or_set" and st.get("bodies") != 1:
+            bad.append((i, "decorator-not-executed", f"{op}: cache fully disabled but the default was computed {st.get('bodies')} times"))
+    if st.get("full") and log:
+        bad.append((i, f"disabled-{name}-issued", f"{op}: cache fully disabled but backend objects were asked: "
+                                                  f"{[rc.fmt_call(e) for e in log][:4]}"))
+    return bad
 
 
 def parse_res(s: str):
@@ -523,6 +706,12 @@ def spec_check(sc, run):
                     bad.append((i, "disabled-decorator-issued", f"{op}: cache fully disabled but backend commands were issued: {[rc.fmt_call(e) for e in st['log']][:4]}"))
             if st.get("log"):
                 written = True
+            if "disall" in st:
+                bad += issued_oracle(i, op, st, regs)
+        elif k == "comp":
+            bad += comp_spec(i, op, st, regs)
+            if st.get("log"):
+                written = True
     bad += conc_spec(sc, run)
     regs = regs_at[-1]
     registered = set({r[0]: r[1] for r in regs}.values())
@@ -562,6 +751,10 @@ def spec_check(sc, run):
         if op[0] == "cmd":
             for e in st.get("log", []):
                 if e["b"] in st.get("fulloff", []) and e["kind"] == "raw":
+                    if is_callback(e):
+                        bad.append((i, D38, f"{op}: {rc.fmt_call(e)} issued by the facade's on-remove callback although backend "
+                                            f"{e['b']} is fully disabled"))
+                        continue
                     sig = D22F if (op[2] in ("scan", "get_match") and e["cmd"] != op[2] and e["depth"] <= 1) else f"disabled-{op[2]}-issued"
                     bad.append((i, sig, f"{op}: {rc.fmt_call(e)} reached a fully disabled backend (depth {e['depth']})"))
     return bad
@@ -638,8 +831,9 @@ def show_out(st) -> str:
     return f"raise:{st['exc']}" if "exc" in st else repr(rc.canon(st.get("r")))
 
 
-def model_check(sc, run, lines, answers):
-    """implementation vs model driver -> list of (step, text)"""
+def model_check(sc, run, lines, answers, known_steps=()):
+    """implementation vs model driver -> list of (step, text); `known_steps`: steps at which a listed known finding
+    (the model describes the repaired code) was observed - the component it concerns is not compared there"""
     bad = []
     for (line, i, what), ans in zip(lines, answers):
         if ans == "bad-op":
@@ -710,6 +904,16 @@ def model_check(sc, run, lines, answers):
             elif not res_matches(parse_res(res), st, calls):
                 bad.append((i, f"{op}: outcome {show_out(st)}, model {res} over backend answers "
                                f"{[rc.canon(e.get('ret', e.get('items', e.get('exc')))) for e in calls]}"))
+        elif what == "comp":
+            out, seq, cbs = comp_impl(st)
+            m_out, m_seq, m_cbs = [x.split("=", 1)[1] for x in ans.split(" ")]
+            if m_out == "fuel":
+                raise HarnessError(f"the model's loop bound is too small for {op}")
+            impl_seq = ";".join(seq) or "-"
+            if out != m_out or impl_seq != m_seq:
+                bad.append((i, f"{op}: impl {out} issued {impl_seq}, model {m_out} {m_seq}"))
+            elif i not in known_steps and cbs != sorted(x for x in m_cbs.split(";") if x != "-"):
+                bad.append((i, f"{op}: the on-remove callback issued {cbs or '-'}, model {m_cbs}"))
         elif what == "dec":
             if ans == "NC":
                 if st.get("exc") != "NC":
@@ -744,7 +948,13 @@ def run_case(sc):
     run = rc.execute(sc)
     lines = build_lines(sc, run)
     answers = DRIVER.ask([l for l, _, _ in lines])
-    return run, spec_check(sc, run), model_check(sc, run, lines, answers)
+    spec = spec_check(sc, run)
+    known = [x for x in spec if x[1] in LOCAL_KNOWN]
+    for x in known:
+        KNOWN_SEEN[x[1]] = KNOWN_SEEN.get(x[1], 0) + 1
+    run["known"] = known
+    spec = [x for x in spec if x[1] not in LOCAL_KNOWN]
+    return run, spec, model_check(sc, run, lines, answers, {x[0] for x in known})
 
 
 def fails(sc) -> bool:
@@ -796,6 +1006,32 @@ def shrink(sc, pred):
                     items = cand
                     x = items[j]
         cur = dict(cur, **{where: items})
+    # drop the tag registry / the preloaded tag sets, entry by entry
+    for field in ("tagreg", "tagsets"):
+        if not cur.get(field):
+            continue
+        if pred({k: v for k, v in cur.items() if k != field}):
+            cur = {k: v for k, v in cur.items() if k != field}
+            continue
+        items = list(cur[field].items()) if field == "tagsets" else list(cur[field])
+        j = 0
+        while j < len(items):
+            cand = items[:j] + items[j + 1:]
+            if pred(dict(cur, **{field: dict(cand) if field == "tagsets" else cand})):
+                items = cand
+            else:
+                j += 1
+        cur = dict(cur, **{field: dict(items) if field == "tagsets" else items})
+    # shorten the tag lists of composites
+    ops = [list(o) for o in cur["ops"]]
+    for j, o in enumerate(ops):
+        if o[0] == "comp" and len(o) > 4 and len(o[4]) > 1:
+            for t in list(o[4]):
+                cand = [list(x) for x in ops]
+                cand[j][4] = [x for x in ops[j][4] if x != t]
+                if cand[j][4] and pred(dict(cur, ops=cand)):
+                    ops = cand
+    cur = dict(cur, ops=ops)
     # shorten key lists of multi-key commands
     ops = [list(o) for o in cur["ops"]]
     for o in ops:
@@ -1215,6 +1451,157 @@ def gen_conc_enum():
             yield {"regs": [["", 0]], "ops": ops, "kind": "conc_full_enum"}
 
 
+# ---- composite commands -------------------------------------------------------------------------------------
+
+TAG = rc.TAG_PREFIX
+# tables for the composites: with and without a dedicated tags backend, with a prefix shorter than `_tag:`, without a default
+COMP_TABLES = [[""], ["", TAG], ["", "a", TAG], ["a", TAG, ""], ["", "_t", "a"], ["", TAG, "ab", "a"]]
+COMP_CMDS = ["set", "incr", "get", "set_add", "set_remove", "set_pop", "delete", "delete_many", "delete_match", "set_lock",
+             "unlock", "ping"]
+
+
+def comp_world(prefixes, rng):
+    """keys, tag registry and preloaded tag sets for a table"""
+    base = [p for p in prefixes if p != TAG]
+    keys = []
+    for p in base:
+        keys += [p + "k", p + "k2"]
+    keys = list(dict.fromkeys(keys))
+    absent = [p + "n!" for p in base]
+    # tag t1: the first key exactly; t2: every key that starts with the first base prefix + "k" (a template with a parameter)
+    tagreg = [["t1", keys[0]], ["t2", base[0] + "k{x}"], ["t3", keys[-1]]]
+    tagsets = {"t1": [keys[0]], "t2": [k for k in keys if k.startswith(base[0] + "k")] + [absent[0]], "t4": list(keys)}
+    return keys, absent, tagreg, tagsets
+
+
+def comp_body(ctx, keys, absent, rng, held=True):
+    """every composite (and the deleting commands, for the remove callback) once or twice, in random order"""
+    k0, k1 = keys[0], keys[-1]
+    ops = [
+        ["comp", ctx, "set_tags", [k0], ["t1"]],
+        ["comp", ctx, "set_tags", [k1], ["t1", "t2"]],
+        ["comp", ctx, "setnx_tags", [rng.choice(keys)], ["t2"]],          # the key exists: the write is refused, nothing is registered
+        ["comp", ctx, "setnx_tags", [absent[0]], ["t1"]],
+        ["comp", ctx, "incr_tags", [rng.choice(absent)], ["t1", "t3"]],
+        ["comp", ctx, "get_or_set", [rng.choice(keys)], []],
+        ["comp", ctx, "get_or_set", [rng.choice(absent) + "g"], []],
+        ["comp", ctx, "one:delete", [k0], []],
+        ["comp", ctx, "one:delete_many", [rng.choice(keys) for _ in range(3)], []],
+        ["comp", ctx, "one:delete_match", [rng.choice(keys)[:-1] + "*"], []],
+        ["comp", ctx, "delete_tags", [], ["t1"]],
+        ["comp", ctx, "delete_tags", [], rng.sample(["t2", "t4", "t9"], 2)],
+        ["comp", ctx, "lock", [k1 + "L!"], []],
+        ["comp", ctx, "invalidate", [rng.choice(keys)[:-1] + "*"], []],
+        ["comp", ctx, "one:set_add", [TAG + "t1"], []],
+        ["comp", ctx, "one:get_many", [k0, k1, absent[0]], []],
+    ]
+    rng.shuffle(ops)
+    if held:
+        # a lock somebody else holds: wait=False raises LockedError - unless set_lock or ping is disabled; wait=True waits it out
+        lk = rng.choice(keys) + "H!"
+        ops += [["cmd", ctx, "set_lock", [lk]], ["comp", ctx, "lock", [lk], []]]
+        if rng.random() < 0.4:
+            ops.append(["comp", ctx, "lock_wait", [lk], []])
+    return ops
+
+
+def gen_comp_sweep(prefixes, disabled, targets, rng, order):
+    """every composite while `disabled` ([] = all commands) is switched off for the backends of `targets`"""
+    regs = mk_regs(prefixes, rng)
+    keys, absent, tagreg, tagsets = comp_world(prefixes, rng)
+    body = comp_body(0, keys, absent, rng)
+    if order == "plain":
+        ops = [["disable", 0, t, disabled] for t in targets] + body
+    elif order == "disabling":
+        ops = [["enter", 0, t, disabled] for t in targets] + body + [["exit", 0] for _ in targets]
+    elif order == "inv":
+        ops = [["enter", 0, t, disabled] for t in targets] + [["inv_enter", 0]] + body + [["inv_exit", 0]] + [["exit", 0] for _ in targets]
+    elif order == "child":
+        # the parent disables, a child inherits; a sibling forked before does not: both run the composites
+        ops = [["fork", 0, 2]] + [["disable", 0, t, disabled] for t in targets] + [["fork", 0, 1]] + \
+              [[o[0], 1] + o[2:] for o in body] + [[o[0], 2] + o[2:] for o in comp_body(2, keys, absent, rng, held=False)[:8]]
+    else:                                       # "lazy": never-initialised backends
+        for r in regs:
+            r.append({"lazy": True})
+        ops = [["disable", 0, t, disabled] for t in targets] + body
+    return {"regs": regs, "ops": ops, "kind": "comp_" + order, "tagreg": tagreg, "tagsets": tagsets}
+
+
+def gen_comp_tx(prefixes, disabled, target, rng):
+    """the composites inside a transaction (no tag registry: what the remove callback does inside a transaction is not C17's business)"""
+    regs = mk_regs(prefixes, rng)
+    keys, absent, _, _ = comp_world(prefixes, rng)
+    body = [o for o in comp_body(0, keys, absent, rng, held=False) if o[2] not in ("delete_tags",)]
+    mode = rng.choice(["fast", "locked", "serializable"])
+    ops = [["enter", 0, target, disabled], ["txenter", 0, mode]] + body + [["txexit", 0], ["exit", 0]]
+    return {"regs": regs, "ops": ops, "kind": "comp_tx"}
+
+
+def gen_comp_tasks(rng, prefixes):
+    """random control operations of several tasks (commands switched off one by one, prefixes, disabling() nestings)
+    with composites in between"""
+    regs = mk_regs(prefixes, rng)
+    keys, absent, tagreg, tagsets = comp_world(prefixes, rng)
+    live, cms, ops = [0], {}, []
+    targets = list(prefixes) + [TAG, keys[0]]
+    for _ in range(rng.randint(8, 16)):
+        c = rng.choice(live)
+        x = rng.random()
+        cmds = rng.choice([[], [rng.choice(COMP_CMDS)], rng.sample(COMP_CMDS, 2), rng.sample(COMP_CMDS, 3)])
+        if x < 0.10 and len(live) < 3:
+            ops.append(["fork", c, len(live)])
+            live.append(len(live))
+        elif x < 0.25:
+            ops.append(["enter", c, rng.choice(targets), cmds])
+            cms[c] = cms.get(c, 0) + 1
+        elif x < 0.32 and cms.get(c, 0):
+            ops.append(["exit", c])
+            cms[c] -= 1
+        elif x < 0.45:
+            ops.append(["disable", c, rng.choice(targets), cmds])
+        elif x < 0.52:
+            ops.append(["enable", c, rng.choice(targets), cmds])
+        elif x < 0.56:
+            ops.append(["inv_enter", c])
+            ops.append(rng.choice(comp_body(c, keys, absent, rng, held=False)))
+            ops.append(["inv_exit", c])
+        else:
+            ops.append(rng.choice(comp_body(c, keys, absent, rng, held=False)))
+    return {"regs": regs, "ops": ops, "kind": "comp_tasks", "tagreg": tagreg, "tagsets": tagsets}
+
+
+def gen_comp_big(rng):
+    """delete_tags of a tag with exactly 100 and with 101 members: the second round of the `while True` loop"""
+    for n in (100, 101):
+        members = [f"m{j}" for j in range(n)]
+        for dis in ([], ["delete_many"], ["set_pop"]):
+            ops = ([["disable", 0, "", dis]] if dis else []) + [["comp", 0, "delete_tags", [], ["big"]], ["comp", 0, "delete_tags", [], ["big"]]]
+            yield {"regs": [["", 0], [TAG, 1]], "ops": ops, "kind": "comp_big", "tagreg": [["big", "m{x}"]], "tagsets": {"big": members}}
+
+
+def gen_dec_tags(rng, prefixes, state):
+    """decorators with tags= (every stored result is registered in its tag sets) under partial disables, then the key is deleted"""
+    regs = mk_regs(prefixes, rng)
+    base = [p for p in prefixes if p != TAG]
+    ops = []
+    if state == "set_add_off":
+        ops += [["disable", 0, p, ["set_add"]] for p in prefixes]
+    elif state == "set_remove_off":
+        ops += [["disable", 0, p, ["set_remove"]] for p in prefixes]
+    elif state == "tag_prefix_off":
+        ops.append(["disable", 0, TAG, []])
+    elif state == "set_off":
+        ops += [["disable", 0, p, ["set"]] for p in prefixes]
+    elif state == "full":
+        ops += [["disable", 0, p, []] for p in prefixes]
+    for j, dk in enumerate(rng.sample(rc.TAG_DECORATORS, 3)):
+        key = f"{rng.choice(base)}d!#{j}"
+        ops.append(["dec", 0, dk, key, 2])
+        ops.append(["comp", 0, "one:delete", [key], []])
+    ops.append(["comp", 0, "delete_tags", [], list(rc.DEC_TAGS)])
+    return {"regs": regs, "ops": ops, "kind": "dec_tags_" + state}
+
+
 def prefix_sets(alphabet, maxsize=4):
     for n in range(0, maxsize + 1):
         for comb in itertools.combinations(alphabet, n):
@@ -1265,6 +1652,52 @@ def interesting(sc, run):
                 tags.add("enabled_read_replaced_by_deletion")
             if any(dis_.get(b) and b in cfg_dis and setup_by.get(b, 0) != op[1] for b in owners if b is not None):
                 tags.add("configured_disabled_backend_used_by_task_that_did_not_set_it_up")
+        if op[0] == "comp":
+            name = op[2]
+            log = [e for e in st["log"] if e["kind"] != "body"]
+            calls0 = [e for e in log if e["depth"] == 0]
+            disall = {int(b): set(v) for b, v in st["disall"].items()}
+            if st.get("full"):
+                tags.add("composite_while_fully_disabled")
+            elif any(disall.values()):
+                tags.add("composite_with_some_command_disabled")
+            if st.get("inv"):
+                tags.add("composite_inside_invalidate_further")
+            if st.get("intx"):
+                tags.add("composite_inside_transaction")
+            if name in ("set_tags", "setnx_tags", "incr_tags") and any(e["cmd"] in ("set", "incr") for e in calls0):
+                kb = longest(regs, op[3][0])
+                for tg in op[4]:
+                    tb = longest(regs, TAG + tg)
+                    if tb is not None and "set_add" in disall.get(tb, ()) and not any(e["cmd"] == "set_add" for e in calls0):
+                        tags.add("tagged_write_allowed_but_set_add_disabled")
+                        if tb != kb and tb in st["fulloff"] and kb not in st["fulloff"]:
+                            tags.add("tagged_write_with_only_the_tag_prefix_disabled")
+                    if tb is not None and tb != kb and any(e["cmd"] == "set_add" and e["b"] == tb for e in calls0):
+                        tags.add("set_add_routed_to_dedicated_tags_backend")
+            if any(is_callback(e) for e in log):
+                tags.add("remove_callback_issued_set_remove")
+            tb = longest(regs, TAG)
+            if any(st["keytags"].get(k) for e in calls0 for inv_ in e.get("removed", []) for k in inv_) and tb is not None \
+                    and "set_remove" in disall.get(tb, ()):
+                tags.add("remove_callback_with_set_remove_disabled")
+            if st.get("exc") == "Locked":
+                tags.add("lock_refused_locked_error")
+            if name in ("lock", "lock_wait") and st.get("bodies") == 1 and not any(e["cmd"] == "unlock" for e in calls0):
+                tags.add("lock_block_ran_unlocked_because_disabled")
+            if name == "lock_wait" and sum(1 for e in calls0 if e["cmd"] == "set_lock") >= 2:
+                tags.add("lock_wait_loop_went_round")
+            if name == "delete_tags" and sum(1 for e in calls0 if e["cmd"] == "set_pop") > len(op[4]):
+                tags.add("delete_tags_second_round")
+            if name == "delete_tags" and any(e["cmd"] == "set_pop" and e.get("ret") for e in calls0) \
+                    and not any(e["cmd"] == "delete_many" for e in calls0):
+                tags.add("delete_tags_members_popped_but_delete_many_disabled")
+            if name == "get_or_set" and st.get("bodies") == 1 and not any(e["cmd"] == "get" for e in calls0):
+                tags.add("get_or_set_default_computed_because_get_disabled")
+            if st.get("exc") == "NC":
+                tags.add("composite_not_configured")
+        if op[0] == "dec" and op[2] in rc.TAG_DECORATORS:
+            tags.add("decorator_with_tags" + ("_while_fully_disabled" if st.get("full") else ""))
         if op[0] == "cmd":
             name, ks = op[2], op[3]
             calls = rc.outer(st["log"])
@@ -1418,6 +1851,32 @@ def generate(chk: Check):
             target = rng.choice(t + [t[-1] + "k"])
             cases.append(("inv_sweep", gen_inv_sweep(t, sub, target, rng, order, ["all", "some", "none"][(j + o) % 3]
                                                      if order != "lazy_only" else rng.choice(["all", "some"]))))
+    # (I) composite commands: every single disabled command and 'all' x every target prefix (incl. `_tag:` only) x five
+    #     surroundings; the whole cache disabled; inside a transaction; random task nestings; decorators with tags=
+    comp_orders = ["plain", "disabling", "inv", "child", "lazy"]
+    n = 0
+    for j, sub in enumerate([[]] + [[c] for c in cmds]):
+        relevant = not sub or sub[0] in COMP_CMDS
+        tabs = COMP_TABLES if (chk.thorough and relevant) else [COMP_TABLES[(j + x) % len(COMP_TABLES)] for x in range(2 if relevant else 1)]
+        for t in tabs:
+            for target in t:
+                if not relevant and target != t[j % len(t)]:
+                    continue                      # commands no composite uses: one target is enough
+                for order in ([comp_orders[(n + x) % len(comp_orders)] for x in range(3)] if chk.thorough else [comp_orders[n % len(comp_orders)]]):
+                    cases.append(("comp_sweep", gen_comp_sweep(t, sub, [target], rng, order)))
+                n += 1
+        # ... for ALL backends at once (`cache.disable(cmd)` on every prefix; sub == []: the whole cache is disabled)
+        t = COMP_TABLES[j % len(COMP_TABLES)]
+        if relevant:
+            cases.append(("comp_sweep_all", gen_comp_sweep(t, sub, list(t), rng, comp_orders[j % len(comp_orders)])))
+            cases.append(("comp_tx", gen_comp_tx(t, sub, rng.choice(t), rng)))
+    for _ in range(chk.budget(60, 800)):
+        cases.append(("comp_tasks", gen_comp_tasks(rng, rng.choice(COMP_TABLES))))
+    for sc in gen_comp_big(rng):
+        cases.append(("comp_big", sc))
+    for state in ["set_add_off", "set_remove_off", "tag_prefix_off", "set_off", "full", "none"]:
+        for _ in range(chk.budget(2, 12)):
+            cases.append(("dec_tags", gen_dec_tags(rng, rng.choice([["", TAG], [""], ["", "a", TAG]]), state)))
     return cases, n_sets, len(alphabet)
 
 
@@ -1433,6 +1892,8 @@ def run(chk: Check) -> int:
     cmd_hist: dict[str, int] = {}
     samples = []
     ok_enum = check_enum(chk)
+    known_examples: list = []
+    KNOWN_SEEN.clear()
     cases = [("corpus:" + name, sc) for name, sc in corpus_cases()]
     ncorpus = len(cases)
     gen, n_sets, n_alpha = generate(chk)
@@ -1449,8 +1910,16 @@ def run(chk: Check) -> int:
             if op[0] == "cmd":
                 cmd_hist[op[2]] = cmd_hist.get(op[2], 0) + 1
                 routing_lookups += len(op[3])
+            elif op[0] == "comp":
+                cmd_hist["comp:" + op[2]] = cmd_hist.get("comp:" + op[2], 0) + 1
             else:
                 cmd_hist["~" + op[0]] = cmd_hist.get("~" + op[0], 0) + 1
+        for x in run_.get("known", []):
+            msg = f"KNOWN-FINDING: property={PROP} {x[1]} {LOCAL_KNOWN[x[1]]}"
+            if msg not in chk.known_hits:
+                chk.known_hits.append(msg)
+                chk.say(msg)
+                known_examples.append({"scenario": {k: v for k, v in sc.items()}, "step": x[0], "text": x[2]})
         tags = interesting(sc, run_)
         for t in tags:
             inter[t] = inter.get(t, 0) + 1
@@ -1493,12 +1962,19 @@ def run(chk: Check) -> int:
                 "backends only} x every public command (thorough: all; quick: non-retrieve singles rotate through the orders). "
                 "Configured-disabled backends: 4 spellings x 5 control calls by another task with a sibling and the parent "
                 "watching, and a fully configured-disabled cache (enumerated); random task nestings over such tables with "
-                "registrations in between (sampled). distinct = distinct (table, op list)",
+                "registrations in between (sampled). Composite commands (set/setnx/incr with tags, get_or_set, delete_tags, lock free / "
+                "held / wait, @invalidate, delete / delete_many / delete_match of tagged keys, decorators with tags=): 'all' and every "
+                "single command x every prefix of a table as target (6 tables with / without a dedicated `_tag:` backend; quick: 1-2 tables "
+                "per command, thorough: all) x {disable, disabling(), inside invalidate_further(), inherited by a child while a sibling "
+                "does not, never-initialised backends} (quick: one, thorough: three of the five, rotating), the same for all backends at once and inside "
+                "a transaction, delete_tags of 100 / 101 members (enumerated); random control operations of up to 3 tasks with composites "
+                "in between (sampled). distinct = distinct (table, op list)",
         "exhaustive": True,
         "exhaustive_subspace": f"all {n_sets} prefix sets of size <= 4 over a {n_alpha}-string alphabet x all keys (routing); "
                                f"all 28 single-command disabled sets + 'all' x 4 transaction nestings x all {len(rc.INVOKE)} public commands; "
                                f"all {len(rc.CDECORATORS)} decorator variants x (equal | different arguments) x both release orders of two "
-                               f"overlapping calls under a full disable",
+                               f"overlapping calls under a full disable; all 28 single-command disabled sets + 'all' x every prefix of a "
+                               f"table (incl. `_tag:` alone) x all {len(rc.COMPOSITES)} composite commands + the deleting commands on tagged keys",
         "overlapping_call_decorators": sorted(rc.CDECORATORS),
         "overlapping_calls_started": cmd_hist.get("~cstart", 0),
         "prefix_sets_enumerated": n_sets,
@@ -1510,6 +1986,9 @@ def run(chk: Check) -> int:
         "op_histogram": cmd_hist,
         "interesting_states_cases": inter,
         "command_enum_in_sync": ok_enum,
+        "composite_commands": sorted(rc.COMPOSITES) + ["one:<public command>"] + sorted(rc.TAG_DECORATORS),
+        "local_known_findings": {k: {"what": v, "observations": KNOWN_SEEN.get(k, 0)} for k, v in LOCAL_KNOWN.items()},
+        "local_known_finding_example": known_examples[:1],
         "trusted_base": TRUSTED,
         "partial": PARTIAL,
     })
@@ -1527,6 +2006,9 @@ def replay(chk: Check, path: str) -> int:
         extra = ""
         if op[0] in ("cmd", "dec"):
             extra = "  issued=" + (";".join(rc.fmt_call(e) for e in rc.outer(st["log"])) or "-")
+        if op[0] == "comp":
+            o, seq, cbs = comp_impl(st)
+            extra = "  issued=" + (";".join(seq) or "-") + ("  remove-callback=" + ";".join(cbs) if cbs else "")
         out = show_out(st) if ("r" in st or "exc" in st) else "-"
         if op[0] == "cstart" and "exc" not in st:
             out = (f"fully_disabled={st['full']} " +
@@ -1543,6 +2025,8 @@ def replay(chk: Check, path: str) -> int:
                   ", ".join(f"call {c} <- {show_out(o)}" for c, o in d["done"].items()))
     for fid, f in run_.get("cfns", {}).items():
         print(f"    function {fid} (@{f['kind']}): executions [number, started by call, argument] = {f['execs']}")
+    for i, sig, t in run_.get("known", []):
+        print(f"KNOWN-FINDING step {i} [{sig}]: {t}")
     for i, sig, t in s:
         print(f"PROPERTY step {i} [{sig}]: {t}")
     for i, t in m:
